@@ -23,7 +23,13 @@ def num(ctx, x):
     "value -> z3 term comparable across one run: raw for fixed/guarded, (num, den) pair for rational"
     if hasattr(x, '_value'):
         return lz(x._value), ctx.S
-    return lz(x._numerator), lz(x._denominator)
+    d = x._denominator
+    if not isinstance(d, int):
+        # a denominator is fixed by the path condition (the exact gcd shim has forked on it) even when its term is
+        # syntactically symbolic: realise it so that cross-multiplication stays linear
+        from symex import core
+        d = core.ENGINE.realize(lz(d))
+    return lz(x._numerator), int(d)
 
 
 class VOps:
@@ -43,8 +49,10 @@ class VOps:
 
     @staticmethod
     def add(a, b):
-        if a[1] is b[1] or (isinstance(a[1], int) and isinstance(b[1], int) and a[1] == b[1]):
-            return (a[0] + b[0], a[1])
+        if isinstance(a[1], int) and isinstance(b[1], int):
+            import math
+            l = a[1] * b[1] // math.gcd(a[1], b[1])
+            return (a[0] * (l // a[1]) + b[0] * (l // b[1]), l)
         return (a[0] * b[1] + b[0] * a[1], a[1] * b[1])
 
     @staticmethod
@@ -151,7 +159,7 @@ def mon_C02(ctx):
             if rational:
                 tot = VOps.sum(votes + [res], 1)
                 ctx.bad('votes-created', tot[0] > N * tot[1])
-                if clean:
+                if clean or A['tag'] == 'begin':
                     ctx.bad('total-not-exact:%s' % A['tag'], tot[0] != N * tot[1])
             else:
                 tot = z3.Sum([v[0] for v in votes] + [res[0]])
@@ -159,6 +167,9 @@ def mon_C02(ctx):
                 if clean:
                     ctx.reach('clean-snapshot')
                     ctx.bad('total-not-exact:%s' % A['tag'], tot != N * S)
+                elif A['tag'] == 'begin':
+                    # first preferences: only the split of equal-ranked ballots can truncate (one unit per share)
+                    ctx.bad('votes-lost-beyond-rounding:begin', N * S - tot > ctx.n * N)
             if A['tag'] == 'defeat':
                 dirty = True
         elif method == 'qpq':
@@ -171,11 +182,18 @@ def mon_C02q(ctx):
         return
     S = ctx.S
     geps = guarded_geps(ctx.E)
+    last_stage_elected = 0
     for sn in ctx.snaps:
         if sn['tag'] not in ('round', 'transfer', 'end'):
             continue
         ctx.reach('qpq-stage')
         nel = sum(1 for c, (state, pend, vote, quot, kf) in sn['cands'].items() if state == 'elected')
+        if sn['tag'] == 'end':
+            # paragraph 2.5b: the remaining hopeful candidates are declared elected when the count ends, without any
+            # ballot electing them; the ballots still account for those elected at the last stage boundary
+            nel = last_stage_elected
+        else:
+            last_stage_elected = nel
         # weight*multiplier in Guarded: (w * m*S) // S == w*m
         tot = z3.Sum([lz(w) * exact_mult(m, S) for (idx, w, m, rk) in sn['ballots']] + [z3.IntVal(0)])
         d = tot - nel * S
